@@ -25,6 +25,7 @@ import (
 	"sort"
 	"strconv"
 	"strings"
+	"sync"
 	"text/template"
 	"time"
 
@@ -1034,6 +1035,8 @@ func c18SettingsStratum(promURL string) []c18Scenario {
 		return out
 	}
 	durs := q("5m", "1h", "5h", "30s", "1d", "1w", "2h30m", "0s", "1y", "abc", "5", "-1m", "1.5h", "", "1y1y", " 5m", "5m ", "1h 5m", "1e3s")
+	// windows that are really queried: nothing above a day (a year at 1m resolution is thousands of slices per rule - slow, not interesting)
+	wins := q("5m", "1h", "5h", "1d", "2h30m", "0s", "abc", "5", "-1m", "1.5h", "", " 5m", "5m ", "1h 5m")
 	sevs := q("info", "warning", "bug", "fatal", "", "critical", "Bug", " bug")
 	keys := q(c18BlockKeys...)
 	toks := q(c18BlockTokens...)
@@ -1064,10 +1067,10 @@ func c18SettingsStratum(promURL string) []c18Scenario {
 		{tag: "for", opts: []opt{{"min", durs, `"1m"`}, {"max", durs, ""}, {"severity", sevs, ""}, {"comment", q("c"), ""}}},
 		{tag: "keep_firing_for", opts: []opt{{"min", durs, `"1m"`}, {"max", durs, ""}, {"severity", sevs, ""}, {"comment", q("c"), ""}}},
 		{tag: "report", opts: []opt{{"comment", q("rep", "", "{{ x"), `"rep"`}, {"severity", sevs, `"bug"`}}},
-		{tag: "alerts", online: true, opts: []opt{{"range", durs, `"1h"`}, {"step", durs, `"1m"`}, {"resolve", durs, `"5m"`}, {"minCount", ints, ""}, {"severity", sevs, ""}, {"comment", q("c"), ""}}},
+		{tag: "alerts", online: true, opts: []opt{{"range", wins, `"1h"`}, {"step", wins, `"1m"`}, {"resolve", durs, `"5m"`}, {"minCount", ints, ""}, {"severity", sevs, ""}, {"comment", q("c"), ""}}},
 		{tag: "cost", online: true, opts: []opt{{"maxSeries", ints, ""}, {"maxTotalSamples", ints, ""}, {"maxPeakSamples", ints, ""}, {"maxEvaluationDuration", durs, ""}, {"severity", sevs, ""}, {"comment", q("c"), ""}}},
 		{tag: "range_query", online: true, opts: []opt{{"max", durs, `"1d"`}, {"severity", sevs, ""}, {"comment", q("c"), ""}}},
-		{tag: `check "promql/series"`, top: true, online: true, opts: []opt{{"lookbackRange", durs, ""}, {"lookbackStep", durs, ""}, {"fallbackTimeout", durs, ""},
+		{tag: `check "promql/series"`, top: true, online: true, opts: []opt{{"lookbackRange", wins, ""}, {"lookbackStep", wins, ""}, {"fallbackTimeout", durs, ""},
 			{"ignoreMetrics", []string{`[".*_errors"]`, `["("]`, `[""]`, `["\\Qx"]`}, ""}, {"ignoreLabelsValue", []string{`{ "foo" = ["job"] }`, `{ "foo{" = ["job"] }`, `{ "" = [] }`}, ""},
 			{"ignoreMatchingElsewhere", []string{`["foo"]`, `["{job=\"x\"}"]`, `["foo{"]`, `["{}"]`, `["sum(foo)"]`, `[""]`}, ""}}},
 	}
@@ -1123,7 +1126,7 @@ type c18Known struct {
 // (9df854d, 457aa6b, 4986535, 72c92b8, 4008951, 0b2762d); their witnesses stay in the corpus and a recurrence is a VIOLATION.
 var c18KnownClasses = []c18Known{}
 
-func c18Configs(r *rand.Rand, rep *runReport, cwd string, n int) {
+func c18Configs(r *rand.Rand, rep *runReport, cwd string, n int, strata bool) {
 	srv := c18FakeProm()
 	defer srv.Close()
 	var scens []c18Scenario
@@ -1140,18 +1143,31 @@ func c18Configs(r *rand.Rand, rep *runReport, cwd string, n int) {
 		{ID: "corpus-fixed-0b2762d-range-query-max-empty", Config: "rule {\n  range_query {\n    max = \"\"\n  }\n}\n", Rules: basicRules},
 		{ID: "corpus-fixed-4008951-promql-label-name", Config: "parser {\n}\n", Rules: "groups:\n- name: g\n  rules:\n  - record: foo\n    expr: up{\"a(b\"=~\"x.*\"}\n"},
 	}
+	if !strata {
+		// search mode: corpus and systematic strata are deterministic and were judged by the main run already
+		corpus = nil
+	}
 	scens = append(scens, corpus...)
 	ms := c18MatchStratum()
+	if !strata {
+		ms = nil
+	}
 	for _, sc := range ms {
 		rep.hist("cfg:stratum=" + sc.Tags[1])
 	}
 	scens = append(scens, ms...)
 	ss := c18SettingsStratum(srv.URL)
+	if !strata {
+		ss = nil
+	}
 	for _, sc := range ss {
 		rep.hist("cfg:stratum=" + sc.Tags[1])
 	}
 	scens = append(scens, ss...)
 	fs := c18FlagStratum(basicRules)
+	if !strata {
+		fs = nil
+	}
 	for _, sc := range fs {
 		rep.hist("cfg:stratum=flag:" + sc.Tags[1])
 	}
@@ -1173,34 +1189,66 @@ func c18Configs(r *rand.Rand, rep *runReport, cwd string, n int) {
 		crashes []string
 	}
 	out := make([]res, len(scens))
-	parallel(len(scens), 12, func(i int) {
+	var slowMu sync.Mutex
+	var slow []string
+	defer func() {
+		if len(slow) > 0 {
+			sort.Strings(slow)
+			if len(slow) > 12 {
+				slow = slow[:12]
+			}
+			rep.Notes = append(rep.Notes, "lint runs that took more than 5 s: "+strings.Join(slow, "; "))
+		}
+	}()
+	parallel(len(scens), 16, func(i int) {
 		sc := scens[i]
 		dir := filepath.Join(cwd, "cfg", fmt.Sprintf("s%04d", i))
 		writeFile(filepath.Join(dir, ".pint.hcl"), sc.Config)
 		writeFile(filepath.Join(dir, "rules", "0.yml"), sc.Rules)
 		// load verdict: `pint config` only loads and prints the configuration
 		base := append([]string{"--no-color", "-c", ".pint.hcl"}, sc.Flags...)
-		rc, se := c18RunLimited(dir, 40*time.Second, append(append([]string{}, base...), "config")...)
-		if rc == -1 {
-			rc, se = c18RunLimited(dir, 240*time.Second, append(append([]string{}, base...), "config")...)
+		// load verdict: `pint config` (loads and prints the configuration).  For the systematic strata the verdict is read
+		// off the lint run itself (every command loads the file through the same config.Load before doing anything:
+		// "failed to load config file" + exit 1 = rejected), which saves one process per scenario.
+		stratum := len(sc.Tags) > 0 && strings.HasSuffix(sc.Tags[0], "-stratum") && len(sc.Flags) == 0
+		if !stratum {
+			rc, se := c18RunLimited(dir, 40*time.Second, append(append([]string{}, base...), "config")...)
+			if rc == -1 {
+				rc, se = c18RunLimited(dir, 240*time.Second, append(append([]string{}, base...), "config")...)
+			}
+			out[i].loadRC, out[i].loadErr = rc, se
 		}
-		out[i].loadRC, out[i].loadErr = rc, se
 		modes := [][]string{{"--offline"}}
 		if sc.Online {
 			modes = append(modes, []string{})
 		}
+		if sc.Online && len(sc.Tags) > 0 && sc.Tags[0] == "settings-stratum" {
+			modes = [][]string{{}} // the block under test only does something with a server
+		}
 		for _, m := range modes {
 			a := append(append([]string{}, base...), m...)
 			a = append(a, "lint", "--min-severity", "info", "rules")
+			t0 := time.Now()
 			rc2, se2 := c18RunLimited(dir, 60*time.Second, a...)
 			if rc2 == -1 {
 				// timed out: the machine may just be busy; one more attempt with a generous budget before calling it a hang
 				rc2, se2 = c18RunLimited(dir, 240*time.Second, a...)
 			}
 			crashed := rc2 < 0 || rc2 > 1 || strings.Contains(se2, "panic:") || strings.Contains(se2, "fatal error:")
-			out[i].runs = append(out[i].runs, map[string]any{"args": a, "exit": rc2, "crashed": crashed, "stderr_tail": tailStr(se2, 1800)})
+			out[i].runs = append(out[i].runs, map[string]any{"args": a, "exit": rc2, "crashed": crashed, "stderr_tail": tailStr(se2, 1800), "seconds": time.Since(t0).Seconds()})
+			if d := time.Since(t0).Seconds(); d > 5 {
+				slowMu.Lock()
+				slow = append(slow, fmt.Sprintf("%s %v: %.1fs", sc.ID, m, d))
+				slowMu.Unlock()
+			}
 			if crashed {
 				out[i].crashes = append(out[i].crashes, se2)
+			}
+			if stratum && len(out[i].runs) == 1 {
+				out[i].loadRC, out[i].loadErr = 0, ""
+				if strings.Contains(se2, "failed to load config file") {
+					out[i].loadRC, out[i].loadErr = 1, se2
+				}
 			}
 		}
 	})
@@ -1301,7 +1349,7 @@ func runC18(args []string) int {
 	}
 	cw.flush()
 	rep.CaseFiles = cw.files
-	c18Configs(r, rep, cwd, n)
+	c18Configs(r, rep, cwd, n, argStr(args, "--templates", "yes") == "yes")
 	rep.write(filepath.Join(cwd, "report.json"))
 	_ = discovery.Noop
 	return 0
